@@ -4,6 +4,7 @@ package complete
 import (
 	"errors"
 	"sort"
+	"strings"
 
 	"src.elv.sh/pkg/cli/modes"
 	"src.elv.sh/pkg/diag"
@@ -70,6 +71,11 @@ func Complete(code CodeBuffer, ev *eval.Evaler, cfg Config) (*Result, error) {
 		// This can happen when there is a parse error.
 		return nil, errNoCompletion
 	}
+	if sep, ok := path[0].(*parse.Sep); ok && endsInCommentOrContinuation(parse.SourceText(sep)) {
+		// Anything inserted after this separator would become part of the
+		// comment, or break the line continuation.
+		return nil, errNoCompletion
+	}
 	for _, completer := range completers {
 		ctx, rawItems, err := completer(path, ev, cfg)
 		if err == errNoCompletion {
@@ -87,6 +93,13 @@ func Complete(code CodeBuffer, ev *eval.Evaler, cfg Config) (*Result, error) {
 		return &Result{Name: ctx.name, Items: items, Replace: ctx.interval}, nil
 	}
 	return nil, errNoCompletion
+}
+
+// Reports whether the text of a separator ends inside a comment, or in a "^"
+// that still lacks its newline. A comment runs to the end of its line, so the
+// former is the case when the last line of the text contains a "#".
+func endsInCommentOrContinuation(s string) bool {
+	return strings.Contains(s[strings.LastIndexAny(s, "\r\n")+1:], "#") || strings.HasSuffix(s, "^")
 }
 
 func dedup(items []modes.CompletionItem) []modes.CompletionItem {
